@@ -629,7 +629,7 @@ class Check(object):
 
 
 def run(ctx):
-    n = {'quick': 700, 'thorough': 12000}[ctx.tier]
+    n = {'quick': 1500, 'thorough': 12000}[ctx.tier]
     explore(ctx, Check('OMD'), n, 'omd')
     if ctx.thorough:
         explore(ctx, Check('QueryParamDict'), n // 4, 'qpd')
